@@ -8,7 +8,7 @@ ID = "C04"
 LEVEL = "exploration"
 RULE = ("Hypothesis-generated sessions: 1-6 operations from {shell, exec_out, streaming_shell, root, list, stat, pull, push} x model "
         "filesystem x device choices (remote ids, WRTE cuts of sync replies, lag of sync replies behind later OKAYs, eager/strict/duplicate "
-        "CLSE, CLSE(0,id) replies, packet order tape, device-side sync FAILs at SEND/k-th DATA/DONE/RECV, streaming_shell generators abandoned after k items, pull destinations that run out of space mid-transfer); plus the same monitor over 2-3 concurrent operations under generated thread/task schedules (line-level preemption inside _open) x maxdata x both APIs. Oracle: protocol monitor inside the device model "
+        "CLSE, CLSE(0,id) replies, packet order tape, device-side sync FAILs at SEND/k-th DATA/DONE/RECV, streaming_shell generators abandoned after k items, pull destinations that run out of space mid-transfer, slow commands whose output and CLSE arrive around a whole-command limit timeout_s); plus the same monitor over 2-3 concurrent operations under generated thread/task schedules (line-level preemption inside _open) x maxdata x both APIs. Oracle: protocol monitor inside the device model "
         "(AOSP protocol.txt stream rules) plus end-of-operation accounting per stream. Non-trivial: a stream with >=2 device or host "
         "WRTEs, or >=2 streams. Distinct = distinct case hash.")
 ASSUMPTIONS = ["device simulator/monitor implements the stream rules of AOSP protocol.txt", "in-memory transport, virtual clock"]
@@ -18,6 +18,13 @@ def stream_accounting(out, case):
     """End-of-operation rules that need the operation's outcome."""
     for i, (op, res) in enumerate(zip(out.ops, out.results)):
         if "exc" in res:
+            # whatever made the call fail: a device CLSE that was handed to the host while this call was running must have been answered
+            t0, t1 = out.t_ops[i]
+            for s in out.op_streams[i]:
+                tc = getattr(s, "t_dev_clse", None)
+                if tc is not None and t0 <= tc <= t1 and not s.host_closed and not getattr(s, "crossing_wrte", False) and op["op"] in ("shell", "exec_out", "root", "streaming_shell") and op.get("take") is None:
+                    return Violation("device-close-not-answered", "op %d %r raised %s, but the device's CLSE for its stream (local %d) had been delivered to the host at t=%.3f and was never answered"
+                                     % (i, op["op"], res["exc"], s.lid, tc - t0))
             continue
         if op.get("take") is not None:
             # the caller abandoned the generator: exactly the WRTEs that were delivered to it are acknowledged
